@@ -34,6 +34,10 @@ func main() {
 		harness.FreeRunMain(args[1], n)
 		return
 	}
+	if len(args) == 3 && args[0] == "seedrun" {
+		harness.SeedRunMain(args[1], args[2])
+		return
+	}
 	if len(args) == 0 {
 		fmt.Println("usage: vcheck run|worker|replay|list ...")
 		os.Exit(2)
